@@ -258,6 +258,55 @@ CLAIMS = {
              'with numpy.fft/FFTW, the Gaussian convergence clause and the '
              'wavelet reconstruction clause are not decided (the latter is '
              'not applicable: a property of PyWavelets).'),
+    'C07': dict(
+        cat='other', ref='DESIGN.md section 2, C07',
+        tech='abstract interpretation of the proximal calculus on a model '
+             'family (weighted 1-d convex quadratics, exact rational '
+             'functions) with an oracle independent of the code; binding '
+             'table; attribute definedness',
+        text='Partial claim: every proximal calculus rule (scaling, '
+             'translation, quadratic perturbation, scalar sum, Bregman, '
+             'Moreau/default conjugate, argument scaling, composition) and '
+             'the affine proximals of the squared norm and its conjugate are'
+             ' proved to return the exact minimiser for all parameters on '
+             'the weighted quadratic model -- a necessary condition of the '
+             'property that holds identically in a, b, sigma, w; each '
+             'functional is bound to the factory of its own family; all '
+             'attributes read by proximal operators resolve.',
+        note='Trusted: ' + TB + '. Optimality of the non-smooth closed forms'
+             ' (soft thresholding, projections, Lambert-W, simplex sort), '
+             'weight consistency of non-quadratic proximals (F25) and the '
+             'Huber proximal on product spaces (F26) are not decided.'),
+    'C08': dict(
+        cat='other', ref='DESIGN.md section 2, C08',
+        tech='abstract interpretation of the conjugation rules on the '
+             'weighted 1-d quadratic model with the exact conjugate as '
+             'oracle; biconjugation; Moreau wiring',
+        text='Partial claim: convex_conj of every derived functional class '
+             'with a rule, of L2NormSquared and QuadraticForm takes exactly '
+             'the values of the conjugate of the class denotation for all '
+             'parameters; applying convex_conj twice restores the values; '
+             'proximal_convex_conj is the proximal of the conjugate.',
+        note='Trusted: ' + TB + '. Fenchel-Young for non-quadratic '
+             'functionals and the pairing of norms/indicators are not '
+             'decided; QuadraticForm only for symmetric operators.'),
+    'C09': dict(
+        cat='other', ref='DESIGN.md section 2, C09',
+        tech='abstract interpretation of gradient rules on the weighted 1-d '
+             'model against d/dt of the class denotation (Riesz '
+             'representative); Lipschitz inequality refuted by rational '
+             'witnesses; NumericalGradient evaluated on the model',
+        text='Partial claim: the gradient of every derived functional '
+             '(sum, scalar and vector multiples, translation, composition, '
+             'product, quotient, quadratic perturbation, Bregman) and of the'
+             ' quadratic built-ins equals the derivative of its own values '
+             'divided by the weight, identically in all parameters; '
+             'declared grad_lipschitz values are exact or dominate the true '
+             'constant on a witness grid (under-estimates are refuted with '
+             'the witness); the numerical gradient is the Riesz '
+             'representative.',
+        note='Trusted: ' + TB + '. Non-smooth points and functionals whose '
+             'values are not interpretable on the line are not decided.'),
 }
 
 NOT_YET = 'check not implemented yet in this commit (DESIGN.md section 6 build order)'
